@@ -33,6 +33,7 @@ REQUIRED_CLASSES = [
     "interval_random:straddler_followed_by_adjacent",
     "interval_random:after_in_place_edit",
     "interval_random:coinciding_points",
+    "textgrid_random:s_beyond_a_tier",
 ]
 MODES = ["stretch", "split", "no_change", "error"]
 
@@ -172,9 +173,14 @@ def run_tg_case(case):
     models.cmp_num(res.maxTimestamp, N(spec["maxT"]) + N(d), exact, [s, d, spec["maxT"] + d], "textgrid maxTimestamp")
     if res.minTimestamp != spec["minT"]:
         raise Violation("timestamp-changed", f"textgrid minTimestamp {res.minTimestamp} != {spec['minT']}")
+    clean = all((t["minT"], t["maxT"]) == (spec["minT"], spec["maxT"]) for t in spec["tiers"])
     with quiet():
-        if res.validate("silence") is not True:
+        if clean and res.validate("silence") is not True:
             raise Violation("invalid-result", f"{what} result does not validate")
+    if not clean:
+        classes.append("textgrid_longer_than_tiers")
+        if any(s > t["maxT"] for t in spec["tiers"]):
+            classes.append("s_beyond_a_tier")
     classes = sorted(set(classes))
     return {"classes": classes, "nontrivial": bool({"straddler", "entry_starts_at_s", "point_at_s"} & set(classes))}
 
@@ -251,6 +257,8 @@ def tier_cases(draw):
 def tg_cases(draw):
     style = draw(gen.STYLES_ARITH)
     spec = draw(gen.textgrid(style=style, max_tiers=4, label=gen.AB))
+    if draw(st.integers(0, 3)) == 0:
+        spec["maxT"] = spec["maxT"] + 1.0  # a textgrid that is longer than its tiers
     s = draw(s_for([t["entries"] for t in spec["tiers"]], style, spec["minT"], spec["maxT"]))
     return {"tg": spec, "s": s, "d": draw(durations(style)), "mode": draw(st.sampled_from(MODES))}
 
